@@ -34,6 +34,9 @@ def run(ctx, R, tier):
     send(F, R)
     ibs(F, R)
     builders(F, R)
+    # nothing is lost: a track is not unloaded while a descendant track (with its sounds) is alive
+    from .c12 import remove_rule
+    remove_rule(F, R, rule='B.C02.alive')
 
 
 def builders(F, R):
